@@ -1,6 +1,11 @@
 package message
 
 import (
+	"bytes"
+	"reflect"
+
+	"github.com/kelindar/binary"
+
 	"github.com/emitter-io/emitter/internal/verifrt"
 )
 
@@ -35,4 +40,26 @@ func c19tSame(x, y ID) bool {
 		eq = verifrt.And(eq, x[i] == y[i])
 	}
 	return eq
+}
+
+// VerifC19Codec: a message through the real messageCodec (EncodeTo with the reflect
+// accessors, DecodeTo with readBytes) comes back with identical id, channel, payload and
+// ttl (an empty field comes back empty).
+func VerifC19Codec(v *verifrt.T) {
+	m := Message{
+		ID:      ID(v.Bytes(v.Choice(v.Bound("field")+1, "il"), "id")),
+		Channel: v.Bytes(v.Choice(v.Bound("field")+1, "cl"), "ch"),
+		Payload: v.Bytes(v.Choice(v.Bound("field")+1, "pl"), "pay"),
+		TTL:     v.U32("ttl"),
+	}
+	var buf bytes.Buffer
+	e := binary.NewEncoder(&buf)
+	c := new(messageCodec)
+	v.Assert(c.EncodeTo(e, reflect.ValueOf(m)) == nil, "C19.codec.encodes")
+	var out Message
+	d := binary.NewDecoder(bytes.NewBuffer(buf.Bytes()))
+	v.Assert(c.DecodeTo(d, reflect.ValueOf(&out).Elem()) == nil, "C19.codec.decodes")
+	v.Reach("message-codec-roundtrip")
+	v.Assert(bytes.Equal(out.ID, m.ID) && bytes.Equal(out.Channel, m.Channel) && bytes.Equal(out.Payload, m.Payload) && out.TTL == m.TTL, "C19.codec.message-unchanged")
+	v.Observe("len", uint64(buf.Len()))
 }
